@@ -6,6 +6,9 @@ HERE = os.path.dirname(os.path.dirname(os.path.abspath(__file__)))
 TECH = "deterministic simulation with fault injection: seeded search over operation/fault histories against a reference model, ddmin-minimised replay files"
 
 CLAIMED = {
+ "C03": dict(section="5.1", level="exploration",
+   text="Seeded programs of compose calls over a pool of long-lived transforms of one dimensionality (the 7 homogeneous classes, the 5 alignment variants, TransformChain, thin-plate splines, piecewise affine, WithDims; 2D and 3D): compose_before/after whose results join the pool and are composed further, the in-place variants (accepted or rejected), self-composition, compose_after_from_vector_inplace, copies, pseudoinverses, decompose+recompose. After every step every pool member is compared on probe points with the harness' own matrix algebra (homogeneous family; also h_matrix) or with sequential application of frozen snapshots of its primitive members (law; operands unchanged by later operations on composites); operand digests before = after every non-in-place and every rejected call; two homogeneous operands must give one invertible Homogeneous that is neither a chain nor an alignment; class honesty predicates (Affine last row, Similarity L^T L = s^2 I, Rotation det>0 and no translation, Translation L = I, scales diagonal) on every result and on every accepted in-place target; decompose() folds back to the same map. Thorough additionally enumerates all ordered class pairs x before/after x in-place/not followed by a further composition. Sampling, not proof.",
+   note="Trusted: NumPy matrix algebra; single-transform apply() of non-homogeneous primitives (TPS, PWA, WithDims) is used on deep-copied snapshots as reference (their purity is C02/C09). A member of a chain is never again an in-place target, a chain is never composed in place with itself, and compositions whose model matrix is ill-conditioned (cond > 1e5) or nearly projectively singular on the probe points are skipped."),
  "C09": dict(section="5.4", level="exploration",
    text="Seeded histories of apply calls on a pool of long-lived transforms (cached and uncached piecewise affine, thin-plate splines, both RBFs, the homogeneous family, chains containing a PWA, WithDims, an alignment re-targeted between calls, copies) with caller-owned buffers that are re-used, edited in place (relative 1e-12 .. 1e-3, i.e. below and above any memo tolerance), refilled under the same array object, or passed as equal values in another array; arrays and shapes; every batch size from 1 to beyond n incl. non-dividing ones; mixes of in-domain and out-of-domain points. Every call is compared with a freshly constructed transform of the same parameters applied to a copy of the current values (or both raise); for the PWA classes the failure mask must have exactly one entry per input point and equal a per-point reference for every batch size; inputs are never modified; BooleanImage.constrain_to_pointcloud batched = unbatched. Sampling, not proof.",
    note="Trusted: a fresh transform as oracle (single-call purity of a fresh object is C02's business); the failure mask of a TransformChain that merely contains a PWA is not judged under batching (generic batching; only value equality / both-raise); points are kept a margin away from triangle edges."),
